@@ -65,4 +65,19 @@ CHECKS.update({
             "text": "Mixed: constructor/ranking bijection for every configuration (concrete execution under the model); strategies are distributions, one iteration preserves the regret invariant, orthogonality (n=3), plus-clipping and save/load proved from an arbitrary invariant state with symbolic terminal values and iteration counter; float32 runs bounded.",
             "note": _NOTE + _A6 + "; orthogonality at n=4 bounded only (QF_NRA beyond both solvers)"},
 })
+
+CHECKS.update({
+    "C11": {"level": "other", "technique": _T + "; assumed multiprocessing.Pool.starmap contract (SpecPool); enumeration exhaustive per n; real pool bounded",
+            "text": "Mixed: the per-task function, the meta-game, the search enumeration and best-states proved for a symbolic hidden game (n=3,4) under the assumed starmap contract; possible_action_sequences exhaustive over every knowledge set (n<=3, 4 thorough); worker-count independence additionally exercised with the real pool (bounded).",
+            "note": _NOTE + _A6},
+    "C12": {"level": "other", "technique": _T + " for eval_one / evaluate(processes=1) over every valid policy; the schedule clause only by bounded runs of the real multiprocessing.Pool",
+            "text": "Mixed: trajectories proved for a symbolic hidden game and every valid policy (eval_one all limits at n=3, limit 2 at n=4; evaluate with processes=1); equality across worker counts / non-replay decided only by bounded real-pool runs, where the listed finding C12-pool-rng-replay shows.",
+            "note": _NOTE + "; pickling/chunking/shared RNG state are outside any contract in reach; statistical independence not decidable"},
+    "C13": {"level": "proof", "technique": _T + "; solver contracts at enumerated environment states with a symbolic hidden game; random choices enumerated by forking",
+            "text": "Every registered solver proved to return a valid action by its rule (ties to the lowest index) and to restore the environment's whole view, at all states for n=3 and selected states for n=4; expected-greedy proved to extend by a mean-minimising coalition without repeats with a non-increasing curve (n=3; n=4 one step, two steps thorough).",
+            "note": _NOTE + _A6 + "; n=4/5 states and comparison with the exhaustive optimum bounded"},
+    "C16": {"level": "proof", "technique": _T + "; wrapper proved over the real inner environment in an arbitrary invariant state; np.random.choice as a nondeterministic-choice contract",
+            "text": "ICG_Gym_Linear proved against its contract for every chosen set at once and every tie-break, n=3,4 (5 thorough): mask, per-size observation of length n, step reveals exactly one unknown coalition of the chosen size and forwards reward/done, reset.",
+            "note": _NOTE + "; gymnasium stubbed; length-n clause under the call site's precondition (minimal initial knowledge)"},
+})
 NOT_APPLICABLE = {}
